@@ -82,7 +82,14 @@ class C15(Prop):
                 b = max(b, a, lo)
                 cn = r[0] if rng.random() < 0.92 else "zz"
                 cs = r[1] if rng.random() < 0.92 else ("-" if r[1] == "+" else "+")
-                yield {"kind": "pair_clamp", "r": list(r), "q": list(q), "iv": [cn, cs, a, b]}
+                case = {"kind": "pair_clamp", "r": list(r), "q": list(q), "iv": [cn, cs, a, b]}
+                if rng.random() < 0.5:
+                    # ... and then lift coordinates through the CLAMPED pair: around its ends, around the ends of
+                    # the original pair (which the clamped pair must have forgotten), anywhere
+                    l2, h2 = max(lo, a), min(hi, b)
+                    cand = [l2, h2, l2 - 1, h2 + 1, l2 + 1, h2 - 1, lo, hi, lo - 1, hi + 1, rng.randint(lo, hi), rng.randint(0, U64)]
+                    case["then_lift"] = [min(max(x, 0), U64) for x in rng.sample(cand, rng.randint(1, 5))]
+                yield case
 
     def evaluate(self, ctx, case):
         ev = Eval()
@@ -112,7 +119,13 @@ class C15(Prop):
                     ev.judge = "lift: expected %s, got %s" % (want, i)
         else:
             iv = case["iv"]
-            i, m = both(ctx, ev, "pair_clamp %s %s %s" % (rt, qt, iv_tok(*iv)))
+            then = case.get("then_lift")
+            if then:
+                i, m = both(ctx, ev, "pair_clamp_lift %s %s %s %s" % (rt, qt, iv_tok(*iv), ",".join("%s:%s:%d" % (hx(r[0]), r[1], x) for x in then)))
+                parts = i.split(" ; ")
+                i, lifted = parts[0], parts[1:]
+            else:
+                i, m = both(ctx, ev, "pair_clamp %s %s %s" % (rt, qt, iv_tok(*iv)))
             if eq:
                 if iv[0] != r[0]:
                     want = "err contig"
@@ -131,6 +144,20 @@ class C15(Prop):
                     ev.tags.append("clamp:%s%s:%s" % (r[1], q[1], cls))
                 if i != want:
                     ev.judge = "clamp: expected %s, got %s" % (want, i)
+                elif then and want.startswith("ok"):
+                    # the clamped pair is a pair like any other: [lo, hi] -> [min(qa,qb), max(qa,qb)]
+                    ql, qh = min(qa, qb), max(qa, qb)
+                    if len(lifted) != len(then):
+                        ev.judge = "clamp then lift: %d answers for %d coordinates" % (len(lifted), len(then))
+                    for x, got in zip(then, lifted):
+                        if lo <= x <= hi:
+                            wl = "some %s:%s:%d" % (hx(q[0]), q[1], at_off(q[1], ql, qh, off_of(r[1], lo, hi, x)))
+                        else:
+                            wl = "none"
+                        if got != wl:
+                            ev.judge = "lift through the clamped pair %s at %d: expected %s, got %s" % (want[3:], x, wl, got)
+                            break
+                    ev.tags.append("clamp-then-lift")
         ev.tags.append(kind + ":" + head(ev.impl[-1]))
         if ev.impl[-1] != ev.model[-1]:
             ev.corr = "impl %r vs model %r" % (ev.impl[-1], ev.model[-1])
@@ -710,6 +737,19 @@ class C16(LiftProp):
                 c["chains"].insert(rng.randrange(len(c["chains"]) + 1), dup)
                 c["kind"] = "conflict"
                 yield c
+            elif rng.random() < 0.12 and case["chains"]:
+                # the declared size lowered below the declared end (by one, down to the extent's length, anywhere
+                # below): no machine may be built, else its coordinates exceed the size it reports
+                c = copy.deepcopy(case)
+                k = rng.randrange(len(c["chains"]))
+                side = rng.choice(["ref", "qry"])
+                start, end = c["chains"][k][side][3], c["chains"][k][side][4]
+                if end == 0:
+                    yield case
+                    continue
+                c["chains"][k][side][1] = rng.choice([end - 1, max(0, end - start), max(0, end - start - 1), rng.randint(0, end - 1)])
+                c["kind"] = "size-below-end"
+                yield c
             else:
                 yield case
 
@@ -734,6 +774,14 @@ class C16(LiftProp):
             ev.tags.append("spec:" + s)
             if b.startswith("ok"):
                 ev.judge = "ill-formed file accepted (specification says %s)" % s
+                for iv, (tag, pairs) in zip(case["ivs"], answers):
+                    for p in pairs:
+                        rs, qs = list(ref.get(p[0], [None]))[0], list(qry.get(p[4], [None]))[0]
+                        if rs is None or qs is None or not (0 <= p[2] <= p[3] <= rs) or not (0 <= p[6] <= p[7] <= qs):
+                            ev.judge += "; and the machine built from it returns %s, outside the sizes it reports (ref %s / qry %s)" % (p, rs, qs)
+                            return ev
+            if case.get("kind") == "size-below-end":
+                ev.nontrivial = ("below", case_key(case))
             return ev
         if not b.startswith("ok"):
             ev.judge = "well-formed file refused: " + b
@@ -941,7 +989,11 @@ def case_key2(case):
 HEADERS = ["chain 0 a 9 + 0 9 b 9 + 0 9 1", "chain 5 chr1 20 - 2 11 q1 30 + 4 13 2", "chain 1 a 9 + 1 5 b 9 - 0 4 7"]
 NONTERM = ["3\t0\t1", "2\t1\t0", "4\t0\t0", "0\t2\t2"]
 TERM = ["1", "4", "9", "0"]
-JUNK = ["chain oops", "chainX 0 a 9 + 0 9 b 9 + 0 9 1", "3\t1", "3\t1\t2\t7", "3\t0\t1\t", "4\t", "x", "chain 0 a 9 + 5 2 b 9 + 0 9 1", " 5", "5\t\t", "chain 0 a 9 ? 0 9 b 9 + 0 9 1", "18446744073709551616"]
+JUNK = ["chain oops", "chainX 0 a 9 + 0 9 b 9 + 0 9 1", "3\t1", "3\t1\t2\t7", "3\t0\t1\t", "4\t", "x", "chain 0 a 9 + 5 2 b 9 + 0 9 1", " 5", "5\t\t", "chain 0 a 9 ? 0 9 b 9 + 0 9 1", "18446744073709551616",
+        # not UTF-8 (surrogate escapes stand for the raw bytes ff / c3 28 / 1f 8b): the reader refuses the line but must consume it
+        # lines other tools treat specially (comments, a byte order mark): for this library they are ordinary unparsable lines
+        "#", "# comment", "##matrix=16 91 -114 -31", "\ufeffchain 0 a 9 + 0 9 b 9 + 0 9 1", "\ufeff",
+        "\udcff", "3\t1\t\udcc3(", "\x1f\udc8b\x08\x01", "chain 0 a\udcfe 9 + 0 9 b 9 + 0 9 1"]
 CLASSES = "BHNTU"
 
 
@@ -1108,7 +1160,7 @@ class C05(LinesBase):
         if any(x.startswith("E") for x in ii):
             canon = []
             for t in case["lines"]:
-                r = ctx.model.ask("line " + hx(t))
+                r = ctx.model.ask("line " + hx(t)) if not any(0xdc80 <= ord(c) <= 0xdcff for c in t) else "not-utf8"
                 canon.append(r.split(" print=")[0][3:] if r.startswith("ok") else "?")
             k = [j for j, x in enumerate(ii) if x.startswith("E")][0]
             for x in ii[k + 1:]:
@@ -1433,6 +1485,10 @@ class C12(Prop):
             if rng.random() < 0.04 and lines:
                 n = rng.choice([65536, 65537, 70000])
                 lines[rng.randrange(len(lines))] = rng.choice(["chain 0 " + "N" * n + " 9 + 0 9 b 9 + 0 9 1", "x" * n])
+            if rng.random() < 0.1 and lines:
+                # a decorated first line (byte order mark, comment marker, stray blank): the very first bytes of
+                # the stream, which every chunk schedule cuts differently
+                lines[0] = rng.choice(["\ufeff", "#", "\ufeff#", " ", ">", "\x1f\udc8b"]) + lines[0]
             yield {"kind": "enc", "lines": lines, "ivs": ivs, "seed": rng.randint(0, 2 ** 31)}
 
     def variants(self, case):
@@ -1525,11 +1581,28 @@ class C12(Prop):
                     break
                 off = 0
                 for t in toks[:-1]:
+                    # ground truth: the next piece of the stream up to and including its LF
+                    k = data.find(b"\n", off)
+                    piece = data[off:(k + 1 if k >= 0 else len(data))]
+                    try:
+                        piece.decode("utf-8")
+                        valid = True
+                    except UnicodeDecodeError:
+                        valid = False
+                    if not valid:
+                        # a line that is not UTF-8 is refused, and consumed (std's read_line contract)
+                        if t != "utf8":
+                            ev.judge = "raw read of a line that is not UTF-8 returned %s" % t[:60]
+                            break
+                        off += len(piece)
+                        continue
                     if not t.startswith("L"):
                         ev.judge = "raw read failed on valid UTF-8: " + t
                         break
                     nn, hxs = t[1:].split(":")
-                    piece = data[off:off + int(nn)]
+                    if int(nn) != len(piece):
+                        ev.judge = "raw read reports %s bytes for the piece %r" % (nn, piece[:80])
+                        break
                     off += int(nn)
                     want = piece[:-1] if piece.endswith(b"\n") else piece
                     if piece.endswith(b"\n") and want.endswith(b"\r"):
@@ -1541,8 +1614,9 @@ class C12(Prop):
                     ev.judge = "raw reads consumed %d of %d bytes" % (off, len(data))
                 if ev.judge:
                     break
-                texts = [ch.unhx(t.split(":")[1]).decode() for t in toks[:-1]]
-                want_lines = list(case["lines"])
+                bad = lambda l: any(0xdc80 <= ord(c) <= 0xdcff for c in l)
+                texts = [ch.unhx(t.split(":")[1]).decode() if t.startswith("L") else None for t in toks[:-1]]
+                want_lines = [None if bad(l) else l for l in case["lines"]]
                 if texts != want_lines and not (want_lines and want_lines[-1] == "" and texts == want_lines[:-1] and not label.endswith("fin=True")):
                     if not ("fin=False" in label and want_lines and texts == want_lines):
                         ev.judge = "lines under '%s' are %s, expected %s" % (label, texts[:5], want_lines[:5])
@@ -1727,7 +1801,12 @@ class C17(Prop):
                 lines = []
                 for c in chains:
                     lines += c.lines() + [""] * rng.choice([0, 1, 2])
-            raw = [l.encode() for l in lines]
+            if rng.random() < 0.25:
+                # stray lines inside otherwise ordinary files (comment-like lines, a byte order mark, blanks with
+                # white space, junk): each is ONE line for every reading method
+                for _ in range(rng.randint(1, 3)):
+                    lines.insert(rng.randint(0, len(lines)), rng.choice(JUNK))
+            raw = [l.encode("utf-8", "surrogateescape") for l in lines]
             if rng.random() < 0.1 and raw:
                 raw[rng.randrange(len(raw))] = b"\xff\xfe"
             if rng.random() < 0.05 and raw:
@@ -1735,7 +1814,7 @@ class C17(Prop):
                 n = rng.choice([65535, 65536, 65537, 70000, 131072 + 5])
                 k = rng.randrange(len(raw))
                 if rng.random() < 0.5:
-                    raw[k] = ("chain 0 " + "N" * n + " 9 + 0 9 b 9 + 0 9 1").encode()
+                    raw[k] = ("chain 0 " + "N" * n + " 9 + 0 9 b 9 + 0 9 1").encode("utf-8", "surrogateescape")
                 else:
                     raw[k] = b"x" * n
             nops = rng.randint(1, 12 if tier == "quick" else 40)
@@ -1755,7 +1834,7 @@ class C17(Prop):
 
     def evaluate(self, ctx, case):
         ev = Eval()
-        eol = case["eol"].encode()
+        eol = case["eol"].encode("utf-8", "surrogateescape")
         raw = [bytes.fromhex(h) for h in case["lines"]]
         data = eol.join(raw) + (eol if case["final_newline"] and raw else b"")
         src = ch.src_one(data)
@@ -1966,7 +2045,7 @@ class C13(Prop):
             fields = t.split(" ") if t.startswith("chain") else t.split("\t")
             nums = [fields[k] for k in ((1, 3, 5, 6, 8, 10, 11, 12) if t.startswith("chain") else range(len(fields)))] if t else []
             if all(is_canon_num(x) for x in nums):
-                if ch.unhx(pr) != t.encode():
+                if ch.unhx(pr) != t.encode("utf-8", "surrogateescape"):
                     ev.judge = "canonical text %r printed back as %r" % (t, ch.unhx(pr))
             else:
                 ev.nontrivial = t
@@ -2165,9 +2244,9 @@ def gen_wide_line(rng):
     while n < target:
         c = rng.choice(["a", "7", " ", "\t", "é", "染", "😀", "chain", "+", "0"])
         pieces.append(c)
-        n += len(c.encode())
+        n += len(c.encode("utf-8", "surrogateescape"))
     head = rng.choice(["", "chain 0 ", "#", "5\t"])
-    return (head + "".join(pieces)).encode()
+    return (head + "".join(pieces)).encode("utf-8", "surrogateescape")
 
 
 def gen_wild_bytes(rng):
@@ -2175,7 +2254,7 @@ def gen_wild_bytes(rng):
     if k < 0.12:
         lines = [gen_wide_line(rng) for _ in range(rng.randint(1, 3))]
         if rng.random() < 0.5:
-            lines.insert(0, rng.choice(HEADERS).encode())
+            lines.insert(0, rng.choice(HEADERS).encode("utf-8", "surrogateescape"))
         return b"\n".join(lines) + b"\n"
     if k < 0.3:
         return bytes(rng.randrange(256) for _ in range(rng.randint(0, 60)))
@@ -2343,15 +2422,35 @@ class C18(Prop):
     trusted = ["rustc's Send/Sync auto-trait checking and borrow checker (the argument for real interleavings)",
                "the probe crate /verif/harness/sendsync"]
 
-    def static_checks(self, ctx):
+    def _build_probe(self):
         import os, shutil, subprocess
-        from . import build, inventory
-        out = []
+        from . import build
         d = os.path.join(build.HARNESS, "sendsync")
         with build.Lock():
             shutil.copyfile(os.path.join(build.REPO, "Cargo.lock"), os.path.join(d, "Cargo.lock"))
             r = subprocess.run(["cargo", "build", "--offline", "--release"], cwd=d, env=build.env(),
                                stdout=subprocess.PIPE, stderr=subprocess.STDOUT, text=True)
+        return d, r
+
+    def pre_static(self):
+        """the type-level obligations: decided by rustc on the probe crate, before anything else is built.
+        Only a failure of a Send/Sync/'static bound is a violation of the property; any other compile error
+        is a broken tie and is left to static_checks / the harness build to report."""
+        d, r = self._build_probe()
+        if r.returncode != 0 and ("cannot be shared between threads safely" in r.stdout or
+                                  "cannot be sent between threads safely" in r.stdout or
+                                  "may not live long enough" in r.stdout or "does not live long enough" in r.stdout):
+            import re
+            types = sorted(set(re.findall(r"assert_(?:send_sync|static)::<([^>]*(?:<[^>]*>)?[^>]*)>", r.stdout)))
+            return [("judge", "a public type is no longer Send + Sync (+ 'static): the static assertion(s) on %s in "
+                              "harness/sendsync no longer compile against /repo:\n%s" % (types or "(see below)", r.stdout[-4000:]))]
+        return []
+
+    def static_checks(self, ctx):
+        import os
+        from . import build, inventory
+        out = []
+        d, r = self._build_probe()
         if r.returncode != 0:
             out.append(("judge", "the Send/Sync probe crate no longer compiles against /repo:\n" + r.stdout[-4000:]))
             return out
